@@ -47,7 +47,8 @@ PLAIN = ['a', 'b c', 'yes', 'No', '~', 'null', '12', '0x1F', '0o7', '017', '1_00
          '2001-12-14', '2001-12-14t21:59:43.10-05:00', '2001-12-14 21:59:43.10 -5', '<<', '=', 'x: y'.replace(': ', ':'), 'a#b', 'http://x.y/z', 'é', '☺', '0x_', '0b_', '2001-13-01', 'key with spaces', '-', '?x', ':x', 'a,b', '']
 BREAKS = ['\n', '\n', '\n', '\r\n', '\r', '\x85', ' ', ' ']
 TAGS = ['', '', '', '', '!!str ', '!!int ', '!!float ', '!!bool ', '!!null ', '!!binary ', '!!timestamp ', '!!seq ', '!!map ', '!!set ', '!!omap ', '!!pairs ', '!local ', '! ',
-        '!<tag:yaml.org,2002:str> ', '!!python/tuple ', '!!python/object:os.system ', '!e!x ', '!<!x> ', '!!python/name:os.path ', '!!value ', '!!merge ']
+        '!<tag:yaml.org,2002:str> ', '!!python/tuple ', '!!python/object:os.system ', '!e!x ', '!<!x> ', '!!python/name:os.path ', '!!value ', '!!merge ',
+        '!caf%C3%A9 ', '!<tag:e.com,2000:%E2%82%ACx> ', '!%21x ', '!e!%C3%A9%20y ', '!x%C3 ', '!x%FF%41 ', '!%F0%9F%98%80 ']
 def scalar(rng, ctx_flow, indent):
     r = rng.random()
     if r < 0.45:
@@ -108,7 +109,7 @@ def gen_doc(rng):
     docs = []
     for di in range(rng.choice([1, 1, 1, 2, 3])):
         head = ''
-        if rng.random() < 0.12: head += rng.choice(['%YAML 1.1\n', '%YAML 1.2\n', '%TAG !e! tag:example.com,2000:\n', '%TAG ! !foo-\n', '%FOO bar\n', '%YAML 1.1\n%TAG !e! tag:e.com:\n'])
+        if rng.random() < 0.12: head += rng.choice(['%YAML 1.1\n', '%YAML 1.2\n', '%TAG !e! tag:example.com,2000:\n', '%TAG ! !foo-\n', '%FOO bar\n', '%YAML 1.1\n%TAG !e! tag:e.com:\n', '%TAG !e! tag:e.com,2000:%C3%A9/\n'])
         if head or di > 0 and rng.random() < 0.9 or rng.random() < 0.4: head += '---' + rng.choice([' ', '\n', ' # c\n'])
         anchors = []
         body = node(rng, rng.choice([0, 1, 2, 3, 4]), 0, False, anchors)
